@@ -11,7 +11,7 @@ verus! {
 
 //@INCLUDE prelude.inc
 
-//@INCLUDE mb.inc
+//@INCLUDE mb_spec.inc
 
 //@INCLUDE rice.inc
 
